@@ -13,3 +13,7 @@ Section CropBase.
     ((arr_of_proj_x OP a (fst xs), arr_of_proj_x OP a (snd xs)),
      (arr_of_proj_y OP a (fst ys), arr_of_proj_y OP a (snd ys))).
 End CropBase.
+
+(* AreaSlicer seen from _sanitize_polygon_bounds: the slicer object is its area_to_crop; area.shape = (height, width) *)
+Definition crop_area {T} (a : area T) : area T := a.
+Definition ashape {T} (a : area T) : Z * Z := (height a, width a).
